@@ -331,7 +331,7 @@ impl Read for SimSource {
         // refill from the endless tail if the finite part is exhausted
         if src!().pos + asked > src!().data.len() {
             if let Some(en) = src!().endless.clone() {
-                if src!().pos >= src!().data.len() && src!().data.len() > src!().byte_budget {
+                if src!().pos > src!().byte_budget {
                     abort(
                         &self.w,
                         g,
